@@ -153,6 +153,29 @@ theorem reconnect_uses_announced_runid (inOff : Int) (rid rid' : Bytes) (off : I
   obtain ⟨_, _, hr, ho⟩ := reconnect_offset off rid' _ (started_begin_full inOff rid rid' off) hs h e c r o hm
   exact ⟨hr, ho⟩
 
+/-- After `+FULLRESYNC rid' off` every exact ACK counts from the ANNOUNCED offset `off` — the offset the tool came with
+    (`inOff`, e.g. a checkpoint's) plays no part (`started_begin_full` composed with `ack_exact`). -/
+theorem ack_counts_from_announced_offset (inOff : Int) (rid rid' : Bytes) (off : Int)
+    (h : List Ev) (e : Ev) (c : Nat) (n : Int) :
+    let s := run Consts.code (begin Consts.code inOff rid (.full rid' off)) h
+    Out.ack c n ∈ emitted Consts.code s e → s.waitFull = true →
+      n = Spec.Offsets.ackOffset off s.pipe.length :=
+  ack_exact off rid' _ (started_begin_full inOff rid rid' off) h e c n
+
+/-- After `+CONTINUE` (a resumed sync) every exact ACK counts from the offset the tool came with, and every later
+    re-PSYNC asks that run id for inOff + received + 1 (`started_begin_cont` composed with `ack_exact` / `reconnect_offset`). -/
+theorem resumed_sync_offsets (inOff : Int) (rid : Bytes) (hs : 0 ≤ inOff) (h : List Ev) (e : Ev) (c : Nat) :
+    let s := run Consts.code (begin Consts.code inOff rid .cont) h
+    (∀ n, Out.ack c n ∈ emitted Consts.code s e → s.waitFull = true →
+        n = Spec.Offsets.ackOffset inOff s.pipe.length) ∧
+    (∀ r o, Out.psync c r o ∈ emitted Consts.code s e →
+        r = rid ∧ o = Spec.Offsets.psyncOffset inOff s.pipe.length) := by
+  intro s
+  have h0 := started_begin_cont inOff rid hs
+  refine ⟨fun n hm hw => ack_exact inOff rid _ h0 h e c n hm hw, fun r o hm => ?_⟩
+  obtain ⟨_, _, hr, ho⟩ := reconnect_offset inOff rid _ h0 hs h e c r o hm
+  exact ⟨hr, ho⟩
+
 /-- **tag_base_constant.** The base that parseSourceCommand adds to the decoder position
     (`ds.sourceOffset`) is the announced start offset after every history. -/
 theorem tag_base_constant (start : Int) (rid : Bytes) (s0 : St) (h0 : Started start rid s0) (h : List Ev) :
